@@ -77,7 +77,7 @@ Record PreEv (ts0 : list task) (later : nat -> Prop) (w : world) (t m : N) (spaw
   pe_m : m < 2;
   pe_drv : forall m', m' < 2 -> exists l, l <= w_now w /\ Inv l (drv_of w m') /\
            Permutation ((if fire && (m' =? m) then [t] else []) ++ wakes m' (spend (w_fes w))) (scheduled (drv_of w m')) /\
-           Tie (w_tasks w) (w_owner w) (w_nid w) [] m' (drv_of w m');
+           Tie (w_tasks w) (w_owner w) (w_nid w) [] m' (drv_of w m') /\ Extra l (drv_of w m');
   pe_spawn_nd : NoDup spawn;
   pe_spawn : forall k, In k spawn -> exists tk, nth_error (w_tasks w) k = Some tk /\ unspawned tk /\ t_mod tk = m /\ t_start tk = t;
   pe_spawn_msg : forall k e, In k spawn -> In e (spend (w_fes w)) -> epay e <> msg_of k;
@@ -96,7 +96,7 @@ Section Event.
   (* the scheduled wake-ups of module m lie at or after t; the fired one is the earliest *)
   Lemma ev_sched_ge x : In x (scheduled (drv_of w m)) -> t <= x.
   Proof.
-    intros Hx. destruct (pe_drv _ _ _ _ _ _ _ HP m (pe_m _ _ _ _ _ _ _ HP)) as (l & _ & _ & Hperm & _).
+    intros Hx. destruct (pe_drv _ _ _ _ _ _ _ HP m (pe_m _ _ _ _ _ _ _ HP)) as (l & _ & _ & Hperm & _ & _).
     apply Permutation_sym in Hperm. pose proof (Permutation_in _ Hperm Hx) as H. apply in_app_or in H.
     destruct H as [H|H].
     - destruct (fire && (m =? m)); [destruct H as [<-|[]]; lia|contradiction].
@@ -105,7 +105,7 @@ Section Event.
 
   Lemma ev_pre : Pre t dr0.
   Proof.
-    destruct (pe_drv _ _ _ _ _ _ _ HP m (pe_m _ _ _ _ _ _ _ HP)) as (l & _ & Hinv & Hperm & _).
+    destruct (pe_drv _ _ _ _ _ _ _ HP m (pe_m _ _ _ _ _ _ _ HP)) as (l & _ & Hinv & Hperm & _ & _).
     pose proof ev_sched_ge as Hge.
     unfold dr0. destruct fire.
     - apply (inv_pre_wake l). exact Hinv. apply lmin_of_min; [|exact Hge].
@@ -115,7 +115,7 @@ Section Event.
 
   Lemma ev_sched0 : Permutation (wakes m (spend (w_fes w))) (scheduled dr0).
   Proof.
-    destruct (pe_drv _ _ _ _ _ _ _ HP m (pe_m _ _ _ _ _ _ _ HP)) as (l & _ & _ & Hperm & _).
+    destruct (pe_drv _ _ _ _ _ _ _ HP m (pe_m _ _ _ _ _ _ _ HP)) as (l & _ & _ & Hperm & _ & _).
     unfold dr0. destruct fire; cbn [andb] in Hperm.
     - rewrite N.eqb_refl in Hperm. cbn [app sched_fire scheduled] in *. apply perm_remove1. exact Hperm.
     - exact Hperm.
@@ -127,7 +127,7 @@ Section Event.
                    sid s = id /\ deadline s = t /\ waker_of (w_owner w) id = Some k.
   Proof.
     intros Hin Hid.
-    destruct (pe_drv _ _ _ _ _ _ _ HP m (pe_m _ _ _ _ _ _ _ HP)) as (l & _ & [Hmid Hwake] & _ & [_ Htask]).
+    destruct (pe_drv _ _ _ _ _ _ _ HP m (pe_m _ _ _ _ _ _ _ HP)) as (l & _ & [Hmid Hwake] & _ & [_ Htask] & _).
     pose proof (never_early t dr0 d es Hin) as Hle.
     assert (Hp : In (d, es) (pending (drv_of w m))).
     { rewrite <- ev_pending0. unfold activate in Hin. destruct (q_bump t (pending dr0)) as [wk rest] eqn:Eb. cbn [fst] in Hin.
@@ -165,7 +165,7 @@ Section Event.
 
   Lemma ev_tie1 : Tie (w_tasks w) (w_owner w) (w_nid w) q0 m dr1.
   Proof.
-    destruct (pe_drv _ _ _ _ _ _ _ HP m (pe_m _ _ _ _ _ _ _ HP)) as (l & _ & [Hmid _] & _ & [Hentry Htask]).
+    destruct (pe_drv _ _ _ _ _ _ _ HP m (pe_m _ _ _ _ _ _ _ HP)) as (l & _ & [Hmid _] & _ & [Hentry Htask] & _).
     pose proof (mid_sorted _ _ Hmid) as Hs.
     assert (Hmid1 : Mid t dr1) by (apply activate_mid; exact ev_pre).
     constructor.
@@ -200,6 +200,28 @@ Section Event.
         rewrite (blocked_sleep_cur _ _ Hbl) in Hc. discriminate.
   Qed.
 
+  (* activation keeps the liveness facts of the fragment *)
+  Lemma ev_live1 : NwLive dr1 /\ AllLive dr1.
+  Proof.
+    destruct (pe_drv _ _ _ _ _ _ _ HP m (pe_m _ _ _ _ _ _ _ HP)) as (l & _ & [Hmid _] & _ & _ & (_ & Hn & Ha)).
+    assert (Hmid1 : Mid t dr1) by (apply activate_mid; exact ev_pre).
+    assert (Hsub : forall d es, In (d, es) (pending dr1) -> In (d, es) (pending (drv_of w m))).
+    { intros d es Hin. rewrite <- ev_pending0. unfold dr1, activate in Hin. destruct (q_bump t (pending dr0)) as [wk rest] eqn:Eb.
+      cbn [snd pending] in Hin. destruct (q_bump_spec _ _ _ _ Eb) as (-> & _). apply in_or_app. right; exact Hin. }
+    assert (Hnw : forall x, next_wakeup dr1 = Some x -> next_wakeup (drv_of w m) = Some x /\ t < x).
+    { intros x Hx. pose proof ev_pending0 as _. unfold dr1, activate in Hx. destruct (q_bump t (pending dr0)) as [wk rest]. cbn [snd next_wakeup] in Hx.
+      assert (E : next_wakeup dr0 = next_wakeup (drv_of w m)) by (unfold dr0; destruct fire; reflexivity).
+      rewrite E in Hx. destruct (next_wakeup (drv_of w m)) as [y|]; [|discriminate].
+      destruct (y <=? t) eqn:Ey; [discriminate|]. injection Hx as <-. split; [reflexivity|lia]. }
+    split.
+    - intros x Hx. destruct (Hnw x Hx) as [Hx0 Hlt]. pose proof (Hn x Hx0) as Hne.
+      set (E := ents_at x (pending (drv_of w m))) in *.
+      assert (Hin : In (x, E) (pending dr0)) by (rewrite ev_pending0; apply ents_at_in; exact Hne).
+      pose proof (activate_keeps_future t dr0 x E Hin Hlt) as Hk. fold dr1 in Hk.
+      rewrite (in_ents_at _ _ _ (mid_sorted _ _ Hmid1) Hk). exact Hne.
+    - intros d es Hin. exact (Ha d es (Hsub d es Hin)).
+  Qed.
+
   Lemma ev_minv1 : MInv ts0 t m q0 w1.
   Proof.
     assert (Hf : w_mail w1 = w_mail w /\ w_tasks w1 = w_tasks w /\ w_owner w1 = w_owner w /\ w_nid w1 = w_nid w)
@@ -211,6 +233,7 @@ Section Event.
     - exact ev_q0_runnable.
     - unfold w1. rewrite drv_of_set_same. apply activate_mid. exact ev_pre.
     - unfold w1. rewrite drv_of_set_same. exact ev_tie1.
+    - unfold w1. rewrite drv_of_set_same. exact ev_live1.
   Qed.
 End Event.
 
@@ -224,6 +247,20 @@ Proof.
     + repeat split. intros x H; injection H as <-; reflexivity.
     + rewrite app_nil_r. repeat split. intros x H; discriminate.
   - cbn [pending scheduled]. rewrite app_nil_r. repeat split. intros x H; discriminate.
+Qed.
+
+Lemma deactivate_live t dr : Mid t dr -> NwLive dr -> AllLive dr ->
+  NwLive (fst (deactivate true dr)) /\ AllLive (fst (deactivate true dr)).
+Proof.
+  intros Hm Hn Ha. pose proof (mid_sorted _ _ Hm) as Hs. destruct (deactivate_out dr) as (Dp & _ & _).
+  split.
+  - intros x Hx. rewrite Dp. revert Hx. unfold deactivate, q_next.
+    destruct (prune (pending dr)) as [|[d0 es0] r] eqn:Ep; cbn [front_time fst next_wakeup].
+    + intros Hx. pose proof (Hn x Hx) as Hne. rewrite <- Ep. rewrite ents_at_prune_keep; assumption.
+    + destruct (earlier d0 (next_wakeup dr)); cbn [fst next_wakeup]; intros Hx.
+      * injection Hx as <-. cbn [ents_at]. rewrite N.eqb_refl. exact (prune_head_live _ _ _ _ Ep).
+      * pose proof (Hn x Hx) as Hne. rewrite <- Ep. rewrite ents_at_prune_keep; assumption.
+  - intros d es Hin. rewrite Dp in Hin. exact (Ha d es (prune_in _ _ Hin)).
 Qed.
 
 Lemma mod_other m m' : m < 2 -> m' < 2 -> m' <> m -> (m' =? 0) <> (m =? 0).
@@ -250,14 +287,14 @@ Proof.
   set (q0 := dedup (flat_map (owner_of (w_owner w)) (flat_map snd wk) ++ spawn)) in *.
   set (w1 := set_drv w m d1) in *.
   assert (Hlen : (length q0 <= queue_fuel w1 q0)%nat) by (unfold queue_fuel; lia).
-  destruct (run_queue_frag ts0 t m (queue_fuel w1 q0) q0 w1 Hlen Hm1) as (Hm2 & F1 & F2 & F3 & F4 & F5 & F6 & F7).
+  destruct (run_queue_frag ts0 t m (queue_fuel w1 q0) q0 w1 Hlen Hm1) as (Hm2 & F1 & F2 & F3 & F4 & F5 & F6 & F7 & F8).
   destruct (run_queue_drv true (queue_fuel w1 q0) t m q0 w1) as [Hacts _].
   set (w2 := run_queue true (queue_fuel w1 q0) t m q0 w1) in *.
   unfold w1 in Hacts at 1. rewrite drv_of_set_same in Hacts.
   pose proof (acts_sched _ _ _ Hacts) as Hs2.
   destruct (deactivate_out (drv_of w2 m)) as (Dp & Ds & Dn).
   pose proof (deactivate_inv t (drv_of w2 m) (mi_mid _ _ _ _ _ Hm2)) as Hinv3.
-  destruct (deactivate true (drv_of w2 m)) as [dr3 wk']. cbn [fst snd] in *.
+  destruct (deactivate true (drv_of w2 m)) as [dr3 wk'] eqn:Ed. cbn [fst snd] in *.
   (* unchanged parts of the world *)
   assert (W1 : w_fes w1 = w_fes w /\ w_now w1 = w_now w /\ w_tasks w1 = w_tasks w /\
                forall m', (m' =? 0) <> (m =? 0) -> drv_of w1 m' = drv_of w m').
@@ -298,7 +335,13 @@ Proof.
   - intros m' Hm'. rewrite drv_of_world. change (if m' =? 0 then w_d0 w3 else w_d1 w3) with (drv_of w3 m').
     rewrite W3b, W3c, W3d.
     destruct (N.eq_dec m' m) as [->|Hne].
-    + rewrite W3f. exists t. split; [lia|]. split; [exact Hinv3|]. split.
+    + rewrite W3f. exists t. split; [lia|]. split; [exact Hinv3|].
+      assert (Hex : Extra t dr3).
+      { pose proof (deactivate_snap t (drv_of w2 m) (mi_mid _ _ _ _ _ Hm2)) as Hsn.
+        destruct (mi_live _ _ _ _ _ Hm2) as [Hn2 Ha2].
+        pose proof (deactivate_live t (drv_of w2 m) (mi_mid _ _ _ _ _ Hm2) Hn2 Ha2) as Hlv.
+        rewrite Ed in Hsn, Hlv. cbn [fst] in Hsn, Hlv. split; [exact Hsn|exact Hlv]. }
+      split; [|split; [|exact Hex]].
       * eapply Permutation_trans; [apply wakes_perm; exact Hperm'|]. rewrite Ds, Hs2, Hsa.
         destruct wk' as [x|]; cbn [app]; [|rewrite app_nil_r; exact Hs0].
         rewrite wakes_cons. cbn [epay etime]. rewrite N.eqb_refl.
@@ -309,8 +352,8 @@ Proof.
            rewrite ents_at_prune_keep; [exact Hold|exact Hsrt|]. intros E; rewrite E in Hold; contradiction.
         -- intros d id Hin. rewrite Dp in Hin. exact (Ht d id (ents_at_prune_in _ _ _ Hsrt Hin)).
     + pose proof (mod_other m m' Hm Hm' Hne) as Hoth. rewrite (W3g m' Hoth).
-      destruct (pe_drv _ _ _ _ _ _ _ HP m' Hm') as (l & Hl & Hinv & Hperm & [He Ht]).
-      exists l. split; [pose proof (pe_now _ _ _ _ _ _ _ HP); lia|]. split; [exact Hinv|]. split.
+      destruct (pe_drv _ _ _ _ _ _ _ HP m' Hm') as (l & Hl & Hinv & Hperm & [He Ht] & Hex).
+      exists l. split; [pose proof (pe_now _ _ _ _ _ _ _ HP); lia|]. split; [exact Hinv|]. split; [|split; [|exact Hex]].
       * eapply Permutation_trans; [apply wakes_perm; exact Hperm'|].
         replace (fire && (m' =? m)) with false in Hperm by (destruct fire; cbn [andb]; [lia|reflexivity]). cbn [app] in Hperm.
         destruct wk' as [x|]; cbn [app]; [|exact Hperm].
@@ -352,4 +395,101 @@ Proof.
       * right. exists e. split; [|exact Ep]. eapply Permutation_in; [apply Permutation_sym; exact Hperm'|]. apply in_or_app. right; exact He.
     + intros k Hl. destruct (Ml k (or_introl Hl)) as (tk & Hk & Hun). exists tk. split; [|exact Hun].
       rewrite (F4 k (Hstill k tk Hk Hun (pe_later_spawn _ _ _ _ _ _ _ HP k Hl))), W1c. exact Hk.
+Qed.
+
+(* ---- progress: the measure 2 * work + number of pending events ---- *)
+Lemma prune_alllive p : (forall d es, In (d, es) p -> es <> []) -> prune p = p.
+Proof.
+  destruct p as [|[d [|e es]] r]; intros H; [reflexivity| |reflexivity].
+  exfalso. exact (H d [] (or_introl eq_refl) eq_refl).
+Qed.
+
+Lemma run_queue_nil wfix fuel t m w : run_queue wfix fuel t m [] w = w.
+Proof. destruct fuel; reflexivity. Qed.
+
+Theorem module_event_measure ts0 later w t m spawn fire :
+  PreEv ts0 later w t m spawn fire ->
+  let w' := module_event true t m spawn fire w in
+  exists nq : nat,
+    (2 * work (w_tasks w') + length (spend (w_fes w')) + 2 * nq <= 2 * work (w_tasks w) + length (spend (w_fes w)) + 1)%nat /\
+    (spawn <> [] -> (1 <= nq)%nat) /\
+    (fire = true -> nq = 0%nat -> length (spend (w_fes w')) = length (spend (w_fes w)) /\ work (w_tasks w') = work (w_tasks w)).
+Proof.
+  intros HP. cbn zeta.
+  pose proof (ev_minv1 ts0 later w t m spawn fire HP) as Hm1.
+  pose proof (ev_woken ts0 later w t m spawn fire HP) as Hwoken.
+  pose proof (ev_pre ts0 later w t m spawn fire HP) as Hpre.
+  destruct (pe_drv _ _ _ _ _ _ _ HP m (pe_m _ _ _ _ _ _ _ HP)) as (l & _ & [Hmidl _] & _ & _ & ([_ _ _ Hcov] & Hnl & Hal)).
+  unfold module_event.
+  set (dr0 := if fire then sched_fire t (drv_of w m) else drv_of w m) in *.
+  assert (Hp0 : pending dr0 = pending (drv_of w m)) by (unfold dr0; destruct fire; reflexivity).
+  assert (Hn0 : next_wakeup dr0 = next_wakeup (drv_of w m)) by (unfold dr0; destruct fire; reflexivity).
+  pose proof (fun d es => bump_takes_all_due t dr0 d es) as Hdue.
+  unfold activate in *. destruct (q_bump t (pending dr0)) as [wk rest] eqn:Eb. cbn [fst snd] in *.
+  set (d1 := {| pending := rest; next_wakeup := match next_wakeup dr0 with Some x => if x <=? t then None else Some x | None => None end;
+                scheduled := scheduled dr0 |}) in *.
+  set (q0 := dedup (flat_map (owner_of (w_owner w)) (flat_map snd wk) ++ spawn)) in *.
+  set (w1 := set_drv w m d1) in *.
+  assert (Hlen : (length q0 <= queue_fuel w1 q0)%nat) by (unfold queue_fuel; lia).
+  destruct (run_queue_frag ts0 t m (queue_fuel w1 q0) q0 w1 Hlen Hm1) as (Hm2 & F1 & F2 & F3 & F4 & F5 & F6 & F7 & F8).
+  assert (W1c : w_tasks w1 = w_tasks w /\ w_fes w1 = w_fes w) by (unfold w1, set_drv; destruct (m =? 0); split; reflexivity).
+  destruct W1c as [W1c W1a].
+  exists (length q0).
+  (* the shape of the result *)
+  assert (Hres : forall w2, w_tasks w2 = w_tasks (run_queue true (queue_fuel w1 q0) t m q0 w1) -> w_fes w2 = w_fes w ->
+     forall wk' fes', fes' = match wk' with Some x => fst (fst (sp_add (w_fes w) x m)) | None => w_fes w end ->
+     (match wk' with Some x => t < x | None => True end) ->
+     (2 * work (w_tasks w2) + length (spend fes') + 2 * length q0 <= 2 * work (w_tasks w) + length (spend (w_fes w)) + 1)%nat).
+  { intros w2 E2 E3 wk' fes' -> Hx. rewrite E2. rewrite W1c in F8.
+    destruct wk' as [x|]; [|lia].
+    destruct (add_perm (w_fes w) x m) as [P1 _]; [rewrite (pe_tcur _ _ _ _ _ _ _ HP); lia|].
+    rewrite (Permutation_length P1). cbn [length]. lia. }
+  set (w2 := run_queue true (queue_fuel w1 q0) t m q0 w1) in *.
+  pose proof (deactivate_inv t (drv_of w2 m) (mi_mid _ _ _ _ _ Hm2)) as Hinv3.
+  destruct (deactivate_out (drv_of w2 m)) as (_ & _ & Dn).
+  destruct (deactivate true (drv_of w2 m)) as [dr3 wk'] eqn:Ed. cbn [fst snd] in *.
+  assert (Hx : match wk' with Some x => t < x | None => True end).
+  { destruct wk' as [x|]; [|exact I]. destruct Hinv3 as [Hmid3 _]. exact (proj1 (mid_nw _ _ Hmid3 x (Dn x eq_refl))). }
+  assert (W3 : w_tasks (set_drv w2 m dr3) = w_tasks w2 /\ w_fes (set_drv w2 m dr3) = w_fes w).
+  { split; [unfold set_drv; destruct (m =? 0); reflexivity|]. rewrite <- W1a, <- F1. unfold set_drv; destruct (m =? 0); reflexivity. }
+  destruct W3 as [W3b W3a].
+  cbn [w_tasks w_fes]. rewrite W3b, W3a.
+  split; [exact (Hres w2 eq_refl (eq_trans F1 W1a) wk' _ eq_refl Hx)|]. split.
+  - intros Hne. destruct spawn as [|k sp]; [contradiction Hne; reflexivity|].
+    assert (Hin : In k q0) by (unfold q0; rewrite dedup_in; apply in_or_app; right; left; reflexivity).
+    destruct q0; [contradiction|cbn [length]; lia].
+  - intros Hfire Hq.
+    assert (Hq0def : dedup (flat_map (owner_of (w_owner w)) (flat_map snd wk) ++ spawn) = []).
+    { change (q0 = []). destruct q0; [reflexivity|discriminate]. }
+    assert (Eq0 : q0 = []) by exact Hq0def.
+    clearbody q0. subst q0. clear Hq.
+    (* nothing was woken, nothing spawned *)
+    assert (Hwk : wk = []).
+    { destruct wk as [|[d es] wk0]; [reflexivity|exfalso].
+      destruct (q_bump_spec _ _ _ _ Eb) as (Hp & _ & _).
+      assert (Hin : In (d, es) (pending (drv_of w m))) by (rewrite <- Hp0, Hp; left; reflexivity).
+      pose proof (Hal d es Hin) as Hne. destruct es as [|id es]; [contradiction Hne; reflexivity|].
+      destruct (Hwoken d (id :: es) id (or_introl eq_refl) (or_introl eq_refl)) as (k & tkx & sx & _ & _ & _ & _ & _ & Hwk).
+      assert (Hk : In k []).
+      { rewrite <- Hq0def. rewrite dedup_in. apply in_or_app. left. cbn [flat_map snd app]. apply in_or_app. left.
+        unfold owner_of. rewrite Hwk. left; reflexivity. }
+      contradiction. }
+    subst wk. destruct (q_bump_spec _ _ _ _ Eb) as (Hp & _ & Hhead). cbn [app] in Hp.
+    unfold w2 in Ed. rewrite run_queue_nil in Ed. unfold w1 in Ed. rewrite drv_of_set_same in Ed.
+    assert (Hrest : rest = pending (drv_of w m)) by (rewrite <- Hp0; symmetry; exact Hp).
+    assert (Hfut : forall d es, In (d, es) (pending (drv_of w m)) -> t < d).
+    { intros d es Hin. rewrite <- Hrest in Hin.
+      assert (Hs0 : sorted (pending dr0)) by (rewrite Hp0; exact (mid_sorted _ _ Hmidl)).
+      exact (q_bump_rest_future t (pending dr0) [] rest Hs0 Eb (d, es) Hin). }
+    assert (Hwk' : wk' = None).
+    { revert Ed. unfold deactivate, q_next. cbn [d1 pending next_wakeup]. rewrite Hrest, Hn0.
+      rewrite ?(prune_alllive (pending (drv_of w m)) Hal).
+      destruct (pending (drv_of w m)) as [|[d0 es0] r] eqn:Epd; cbn [front_time]; [intros H; injection H as _ <-; reflexivity|].
+      destruct (Hcov d0 es0) as (x & Hx' & _ & _ & Hxd); [left; reflexivity|apply (Hal d0 es0); rewrite Epd; left; reflexivity|].
+      rewrite Hx'. assert (Htx : t < x).
+      { pose proof (Hnl x Hx') as Hne. pose proof (ents_at_in _ _ Hne) as Hin. rewrite Epd in Hin. exact (Hfut _ _ Hin). }
+      replace (x <=? t) with false by lia. unfold earlier. replace (d0 <? x) with false by lia.
+      intros H; injection H as _ <-; reflexivity. }
+    subst wk'. split; [reflexivity|].
+    unfold w2. rewrite run_queue_nil, W1c. reflexivity.
 Qed.
